@@ -224,10 +224,100 @@ def gen_spec(rng, tier):
             "opt": opt, "trainer": trainer, "steps": steps}
 
 
+def _gen_stage_conds(rng, n_models, n_par, n, need_param):
+    """1-3 conditions on the shared models / Parameters of a staged world"""
+    kinds = ["pinn", "pinn", "data", "adaptive", "periodic"] + (["param", "pinn"] if n_par else [])
+    conds = []
+    for i in range(n):
+        kind = str(rng.choice(kinds))
+        if need_param and i == 0 and n_par:
+            kind = str(rng.choice(["pinn", "adaptive", "param"]))
+        c = {"kind": kind, "weight": float(rng.choice(WEIGHTS))}
+        mi = int(rng.integers(0, n_models))
+        if kind in ("pinn", "adaptive"):
+            c["model"] = mi
+            c["sampler"] = _gen_sampler(rng, static=True if kind == "adaptive" else None)
+            if n_par and (rng.random() < 0.7 or (need_param and i == 0)):
+                pj = int(rng.integers(0, n_par))
+                c["param"] = pj
+                c["res"] = str(rng.choice(["r_lap_D", "r_heat_D", "r_scale_D"])) if pj == 0 else "r_adv_k"
+            else:
+                c["res"] = str(rng.choice(["r_dirichlet", "r_source", "r_datafn", "r_lap", "r_heat"]))
+        elif kind == "periodic":
+            c["model"] = mi
+            c["sampler"] = {"n": [1, int(rng.integers(2, 6))], "static": bool(rng.random() < 0.5)}
+            if n_par and rng.random() < 0.5:
+                c["param"] = 0
+                c["res"] = "p_left_right_D"
+            else:
+                c["res"] = "p_left_right"
+        elif kind == "data":
+            c["model"] = mi
+            c.update(n_data=int(rng.integers(4, 10)), data_seed=int(rng.integers(0, 1000)), batch=int(rng.integers(2, 6)),
+                     norm=2, root=1.0, full=bool(rng.random() < 0.3))
+        else:
+            c["param"] = int(rng.integers(0, n_par))
+            c["target"] = float(rng.choice([1.0, 0.5]))
+        conds.append(c)
+    if rng.random() < 0.3:
+        conds.append({"kind": "recording", "model": int(rng.integers(0, n_models)), "weight": float(rng.choice(WEIGHTS)),
+                      "sampler": _gen_sampler(rng), "uses_iteration": True})
+    return conds
+
+
+def gen_staged_spec(rng, tier):
+    """two or three training stages in one world: shared models and Parameters, own Solver / OptimizerSetting per stage"""
+    n_par = int(rng.choice([0, 1, 2], p=[0.15, 0.5, 0.35]))
+    params = [{"name": "D", "init": [round(float(rng.uniform(0.5, 1.5)), 3)]},
+              {"name": "k", "init": [round(float(rng.uniform(0.5, 1.5)), 3), round(float(rng.uniform(0.2, 0.8)), 3)]}][:n_par]
+    n_models = int(rng.integers(1, 3))
+    models = [_gen_model(rng, str(rng.choice(PLAIN_MODELS))) for _ in range(n_models)]
+    stages = []
+    prev_opt = None
+    for si in range(int(rng.integers(2, 4))):
+        st = {"steps": int(rng.integers(1, 5)), "trainer": {}}
+        if si and rng.random() < 0.35:
+            st["reuse"] = True
+            st["conds"] = []
+        else:
+            st["conds"] = _gen_stage_conds(rng, n_models, n_par, int(rng.integers(1, 4)), need_param=True)
+            if rng.random() < 0.5:
+                # conditions built BEFORE the trained ones with the shared objects, never handed to a Solver
+                st["bystanders"] = _gen_stage_conds(rng, n_models, n_par, int(rng.integers(1, 3)), need_param=True)
+        r = rng.random()
+        if si and prev_opt is not None and not prev_opt.get("default_setting") and r < 0.25:
+            # the user keeps his OptimizerSetting object and only changes its learning rate
+            o = dict(prev_opt)
+            o["lr"] = float(np.float32(prev_opt["lr"] * float(rng.choice([0.2, 0.5, 3.0]))))
+            st["same_setting"] = True
+        elif r < 0.35:
+            o = {"cls": "Adam", "lr": 0.001, "args": {}, "default_setting": True}       # Solver(...) without a setting
+        else:
+            o = gen_opt(rng, tier, allow_lbfgs=False)
+            if rng.random() < 0.6:
+                o["args"] = {}
+                o["default_args"] = True             # OptimizerSetting(...) without the optimizer_args argument
+            o["lr"] = float(np.float32(o["lr"] * float(rng.choice([1.0, 0.4, 2.0, 0.15]))))
+        st["opt"] = o
+        prev_opt = o
+        stages.append(st)
+    return {"seed": int(rng.integers(0, 2**31 - 1)), "models": models, "params": params, "stages": stages}
+
+
 def gen_cases(seed, tier):
     rng = np.random.default_rng([seed, 7])
-    n = 150 if tier == "quick" else 2200
-    return [{"spec": gen_spec(rng, tier)} for _ in range(n)]
+    n = 130 if tier == "quick" else 2000
+    single = [{"spec": gen_spec(rng, tier)} for _ in range(n)]
+    rng2 = np.random.default_rng([seed, 7, 1])
+    m = 50 if tier == "quick" else 700
+    staged = [{"spec": gen_staged_spec(rng2, tier)} for _ in range(m)]
+    # interleave, so that every worker process sees staged and single-fit cases in a mixed order
+    out, k = [], max(1, n // m)
+    for i, c in enumerate(single):
+        out.append(c)
+        if i % k == k - 1 and staged:
+            out.append(staged.pop(0))
+    return out + staged
 
 
 # ---------------------------------------------------------------------------------------------
@@ -320,45 +410,22 @@ def check_events(spec, real, res, mech, lbfgs):
     return step + 1
 
 
-def run_case(case):
-    from .. import c07_world as W, c07_refloop as R, c07_harness as H
-    spec = case["spec"]
-    steps = spec["steps"]
+def _judge(spec, steps, ref, real, res, mech, tag=""):
+    """all monitors of one fit (a whole un-staged case, or one stage of a staged case); spec needs "conds", "opt",
+    "trainer", "vals".  -> (how far the reference moved, all steps observed)"""
+    from .. import c07_harness as H
     lbfgs = spec["opt"]["cls"] == "LBFGS"
-    res = {"cls": _cls(spec), "judged": 0, "nontrivial": False, "viol": [], "counters": {}}
-    C = res["counters"]
-    mech = {"opt": spec["opt"]["cls"], "sched": (spec["opt"].get("sched") or {}).get("cls"),
-            "epochs": "several" if spec["trainer"].get("limit_train_batches") else "one",
-            "validation": bool(spec["vals"])}
-    V = res["viol"]
-
-    # determinism self-check of the reference (two fresh reference worlds must agree exactly)
-    ref = R.run(spec, steps)
-    flat = [t for st in ref["traj"] for t in st]
-    if not all(bool(torch.isfinite(t).all()) for t in flat):
-        C["rejected_nonfinite_reference"] = 1      # the generated problem diverges: nothing to compare
-        return res
-    if case.get("selfcheck", True) and steps <= 3:
-        ref2 = R.run(spec, steps)
-        if H.maxdiff(ref["traj"][-1], ref2["traj"][-1]) != 0.0:
-            raise Inconclusive("reference loop not reproducible for this spec")
-        C["reference_reproducibility_checks"] = 1
-    try:
-        real = H.run_real(spec, steps)
-    except Exception as e:
-        V.append(viol("exception", "training through the Solver raised %r" % (e,), site=exc_site(e),
-                      exc=type(e).__name__, **mech))
-        return res
+    C, V = res["counters"], res["viol"]
     if ref["names"] != real.names:
         raise Inconclusive("reachability walk differs between two fresh worlds")
     names = real.names
-    C["fits"] = 1
-    C["cases_opt_" + spec["opt"]["cls"]] = 1
+    C["fits"] = C.get("fits", 0) + 1
+    C["cases_opt_" + spec["opt"]["cls"]] = C.get("cases_opt_" + spec["opt"]["cls"], 0) + 1
     if spec["trainer"].get("limit_train_batches"):
-        C["cases_several_epochs"] = 1
+        C["cases_several_epochs"] = C.get("cases_several_epochs", 0) + 1
     if spec["vals"]:
-        C["cases_with_validation"] = 1
-    C["learnable_tensors"] = len(names)
+        C["cases_with_validation"] = C.get("cases_with_validation", 0) + 1
+    C["learnable_tensors"] = C.get("learnable_tensors", 0) + len(names)
     for n in names:
         C["tensors_" + _what(n)] = C.get("tensors_" + _what(n), 0) + 1
 
@@ -368,6 +435,7 @@ def run_case(case):
 
     # (2) learnable state after every step
     moved = 0.0
+    n_state_cmp = 0
     reported = set()
     for s in range(1, steps + 1):
         got = real.rec.end_states.get(s)
@@ -380,13 +448,14 @@ def run_case(case):
         for n, a, b in zip(names, want, got):
             d = _tdiff(a, b)
             res["judged"] += 1
+            n_state_cmp += 1
             if not d <= tol and _what(n) not in reported:
                 reported.add(_what(n))
-                V.append(viol("state_differs", "after step %d of %d: %s differs from the reference loop by %.3g "
+                V.append(viol("state_differs", tag + "after step %d of %d: %s differs from the reference loop by %.3g "
                               "(tolerance %.3g; reference moved %.3g from its start); conditions=%s weights=%s"
                               % (s, steps, n, d, tol, move, [c["kind"] for c in spec["conds"]],
                                  [c["weight"] for c in spec["conds"]]), what=_what(n), **mech))
-    C["state_comparisons"] = res["judged"]
+    C["state_comparisons"] = C.get("state_comparisons", 0) + n_state_cmp
     # final state (after fit returned)
     for n, a, b in zip(names, ref["traj"][-1], real.final):
         d = _tdiff(a, b)
@@ -438,7 +507,7 @@ def run_case(case):
                 break
         if bad:
             V.append(viol("optimizer_state_differs", bad + " after %d steps" % steps, **mech))
-        C["optimizer_state_tensors"] = sum(len(a) for a in ref["opt_state"])
+        C["optimizer_state_tensors"] = C.get("optimizer_state_tensors", 0) + sum(len(a) for a in ref["opt_state"])
     if real.lrs is not None:
         res["judged"] += 1
         if len(real.lrs) != len(ref["lrs"]) or any(abs(a - b) > 1e-12 + 1e-9 * abs(a) for a, b in zip(ref["lrs"], real.lrs)):
@@ -446,7 +515,7 @@ def run_case(case):
                           % (steps, real.lrs, ref["lrs"], spec["opt"].get("sched")), **mech))
     if spec["opt"].get("sched"):
         res["judged"] += 1
-        C["scheduler_cases"] = 1
+        C["scheduler_cases"] = C.get("scheduler_cases", 0) + 1
         if real.sched_last_epoch != ref["sched_last_epoch"]:
             V.append(viol("scheduler_steps", "scheduler was stepped %s times, reference %s (frequency %d, %d steps)"
                           % (real.sched_last_epoch, ref["sched_last_epoch"], spec["opt"]["sched"]["freq"], steps), **mech))
@@ -459,13 +528,14 @@ def run_case(case):
     # (5) what the user-defined condition saw
     for i, c in enumerate(spec["conds"]):
         if c["kind"] == "recording" and not lbfgs:
-            its = [x[0] for x in real.world.train[i].log_calls]
+            calls = real.cond_logs[i]
+            its = [x[0] for x in calls]
             res["judged"] += len(its)
             C["recording_condition_calls"] = C.get("recording_condition_calls", 0) + len(its)
             if its != list(range(steps)):
                 V.append(viol("iteration_index", "user-defined condition received iterations %s, expected %s"
                               % (its[:12], list(range(steps))[:12]), seen_by="RecordingCondition", **mech))
-            if not all(x[2] for x in real.world.train[i].log_calls):
+            if not all(x[2] for x in calls):
                 V.append(viol("grad_disabled_in_training", "training condition called with gradients disabled", **mech))
 
     # (6) optimizer membership
@@ -477,7 +547,7 @@ def run_case(case):
                 V.append(viol("not_optimised", "learnable tensor %s (shape %s) reachable from the training conditions "
                               "is not held by the optimizer" % (n, tuple(p.shape)), what=_what(n), **mech))
                 break
-        C["optimizer_membership_checks"] = len(names)
+        C["optimizer_membership_checks"] = C.get("optimizer_membership_checks", 0) + len(names)
 
     # (7) adaptive weights ascend (direct sign probe on the first step)
     wd = float(spec["opt"].get("args", {}).get("weight_decay", 0.0) or 0.0)
@@ -519,7 +589,7 @@ def run_case(case):
                               % gs, part="optimizer", **mech))
                 break
     if real.val_only_params:
-        C["validation_only_tensors"] = len(real.val_only_params)
+        C["validation_only_tensors"] = C.get("validation_only_tensors", 0) + len(real.val_only_params)
         for n, a, b in zip(real.val_only_names, real.val_only_theta0, real.val_only_final):
             res["judged"] += 1
             if not torch.equal(a, b):
@@ -527,11 +597,121 @@ def run_case(case):
                               "changed by %.3g during fit" % (n, _tdiff(a, b)), **mech))
                 break
     if spec["vals"] and not real.rec.val_snaps and steps >= spec["trainer"].get("val_interval", 1):
-        C["validation_expected_but_not_run"] = 1
+        C["validation_expected_but_not_run"] = C.get("validation_expected_but_not_run", 0) + 1
 
-    res["nontrivial"] = moved > 0.0 and (len(real.rec.end_states) == steps)
+    return moved, len(real.rec.end_states) == steps
+
+
+def run_case(case):
+    from .. import c07_world as W, c07_refloop as R, c07_harness as H
+    spec = case["spec"]
+    if "stages" in spec:
+        return _run_staged(case)
+    steps = spec["steps"]
+    res = {"cls": _cls(spec), "judged": 0, "nontrivial": False, "viol": [], "counters": {}}
+    C = res["counters"]
+    mech = {"opt": spec["opt"]["cls"], "sched": (spec["opt"].get("sched") or {}).get("cls"),
+            "epochs": "several" if spec["trainer"].get("limit_train_batches") else "one",
+            "validation": bool(spec["vals"]), "staged": False}
+    V = res["viol"]
+
+    # determinism self-check of the reference (two fresh reference worlds must agree exactly)
+    ref = R.run(spec, steps)
+    flat = [t for st in ref["traj"] for t in st]
+    if not all(bool(torch.isfinite(t).all()) for t in flat):
+        C["rejected_nonfinite_reference"] = 1      # the generated problem diverges: nothing to compare
+        return res
+    if case.get("selfcheck", True) and steps <= 3:
+        ref2 = R.run(spec, steps)
+        if H.maxdiff(ref["traj"][-1], ref2["traj"][-1]) != 0.0:
+            raise Inconclusive("reference loop not reproducible for this spec")
+        C["reference_reproducibility_checks"] = 1
+    try:
+        real = H.run_real(spec, steps)
+    except Exception as e:
+        V.append(viol("exception", "training through the Solver raised %r" % (e,), site=exc_site(e),
+                      exc=type(e).__name__, **mech))
+        return res
+    moved, complete = _judge(spec, steps, ref, real, res, mech)
+    res["nontrivial"] = moved > 0.0 and complete
     C["steps"] = steps
+    C["cases_single_fit"] = 1
     return res
+
+
+def _run_staged(case):
+    """2-3 training stages in ONE world and one process: own Solver / OptimizerSetting / Trainer per stage, shared models
+    and Parameters, conditions reused or freshly built; compared with the reference stage by stage and step by step"""
+    from .. import c07_refloop as R, c07_harness as H
+    spec = case["spec"]
+    res = {"cls": _cls_staged(spec), "judged": 0, "nontrivial": False, "viol": [], "counters": {}}
+    C, V = res["counters"], res["viol"]
+    refs = R.run_staged(spec)
+    for r in refs:
+        if not all(bool(torch.isfinite(t).all()) for st in r["traj"] for t in st):
+            C["rejected_nonfinite_reference"] = 1
+            return res
+    reals, exc = H.run_real_staged(spec)
+    C["cases_staged"] = 1
+    all_ok, moved_all = exc is None, True
+    for si, st in enumerate(spec["stages"]):
+        o = st["opt"]
+        mech = {"opt": o["cls"], "sched": (o.get("sched") or {}).get("cls"), "epochs": "one", "validation": False,
+                "staged": True, "stage": si, "conditions": "reused" if st.get("reuse") and si else "fresh",
+                "setting": ("solver_default" if o.get("default_setting") else "same_object_lr_changed"
+                            if st.get("same_setting") and si else "default_args" if o.get("default_args") else "explicit_args"),
+                "bystanders": bool(st.get("bystanders")) and not (st.get("reuse") and si)}
+        if si >= len(reals):
+            if exc is not None and si == len(reals):
+                V.append(viol("exception", "stage %d: training through the Solver raised %r" % (si, exc),
+                              site=exc_site(exc), exc=type(exc).__name__, **mech))
+            break
+        ref, real = refs[si], reals[si]
+        pseudo = {"conds": st["conds"] if not (st.get("reuse") and si) else _stage_conds(spec, si), "opt": o,
+                  "trainer": st.get("trainer", {}), "vals": []}
+        C["stages"] = C.get("stages", 0) + 1
+        C["stages_setting_" + mech["setting"]] = C.get("stages_setting_" + mech["setting"], 0) + 1
+        C["stages_conditions_" + mech["conditions"]] = C.get("stages_conditions_" + mech["conditions"], 0) + 1
+        if mech["bystanders"]:
+            C["stages_with_bystander_conditions"] = C.get("stages_with_bystander_conditions", 0) + 1
+        moved, complete = _judge(pseudo, st["steps"], ref, real, res, mech, tag="stage %d (%s conditions, setting %s, lr %g): "
+                                 % (si, mech["conditions"], mech["setting"], o["lr"]))
+        C["steps"] = C.get("steps", 0) + st["steps"]
+        all_ok = all_ok and complete
+        moved_all = moved_all and moved > 0.0
+        # every learnable tensor of the shared models / Parameters after the stage (also those this stage does not train)
+        if ref["world_names"] != real.world_names:
+            raise Inconclusive("walk over the shared objects differs between the two worlds")
+        for n, a, b in zip(ref["world_names"], ref["world_state"], real.world_state):
+            res["judged"] += 1
+            d = _tdiff(a, b)
+            if not d <= 1e-6 + 1e-4 * max(moved, 1.0):
+                V.append(viol("state_differs", "after stage %d: shared object tensor %s differs from the reference by %.3g"
+                              % (si, n, d), what=_what_world(n), scope="world", **mech))
+                break
+    res["nontrivial"] = all_ok and moved_all and len(reals) == len(spec["stages"])
+    return res
+
+
+def _stage_conds(spec, si):
+    while si > 0 and spec["stages"][si].get("reuse"):
+        si -= 1
+    return spec["stages"][si]["conds"]
+
+
+def _what_world(path):
+    return "inverse_parameter" if path.endswith("._t") else "network"
+
+
+def _cls_staged(spec):
+    parts = []
+    for si, st in enumerate(spec["stages"]):
+        o = st["opt"]
+        parts.append("%s:%s/%s/%s%s" % ("R" if st.get("reuse") and si else "F", o["cls"], (o.get("sched") or {}).get("cls", "-"),
+                                       "dflt" if o.get("default_setting") else "same" if st.get("same_setting") and si
+                                       else "noargs" if o.get("default_args") else "args",
+                                       "+by" if st.get("bystanders") and not (st.get("reuse") and si) else ""))
+    return "staged|p%d|%s" % (len(spec["params"]), "|".join(parts))
 
 
 def sample_of(case, r):
